@@ -74,15 +74,32 @@ def family(ctx):
     return list(dict.fromkeys(out))
 
 
+def spin_family():
+    """programs whose threads all terminate but wait for each other in yield loops (each spinner on its own flag, the
+    setter first / last in spawn order, as main): the model must return normally (fairness of the hand-over between
+    yielding threads: the thread that yielded least goes first)"""
+    out = []
+    for lo, so in (("acq", "rel"), ("rlx", "rlx")):
+        out.append(f"cfg x=2 | T0: spawn 1; spawn 2; await 0 1 {lo}; join 1; join 2 | T1: await 1 1 {lo} | T2: st 0 1 {so}; st 1 1 {so}")
+        out.append(f"cfg x=2 | T0: spawn 1; spawn 2; await 0 1 {lo}; join 1; join 2 | T1: await 1 1 {lo} | T2: st 1 1 {so}; st 0 1 {so}")
+        out.append(f"cfg x=2 | T0: spawn 1; spawn 2; spawn 3; join 1; join 2; join 3 | T1: await 0 1 {lo} | T2: await 1 1 {lo} | T3: st 0 1 {so}; st 1 1 {so}")
+        out.append(f"cfg x=2 | T0: spawn 1; spawn 2; spawn 3; join 1; join 2; join 3 | T1: st 0 1 {so}; st 1 1 {so} | T2: await 0 1 {lo} | T3: await 1 1 {lo}")
+        out.append(f"cfg x=2 | T0: spawn 1; spawn 2; st 0 1 {so}; st 1 1 {so}; join 1; join 2 | T1: await 0 1 {lo} | T2: await 1 1 {lo}")
+        out.append(f"cfg x=2 | T0: spawn 1; spawn 2; await 1 1 {lo}; join 1; join 2 | T1: await 0 1 {lo}; st 1 1 {so} | T2: st 0 1 {so}")
+    return out
+
+
 def run(ctx):
     ctx.prove(THEOREMS)
     ctx.build_harness()
-    programs = family(ctx)
+    spins = spin_family()
+    programs = list(dict.fromkeys(family(ctx) + spins))
     cap = 3000 if ctx.quick else 30000
     ctx.cov["rule"] = ("seeded programs of the atomic, lock, wait/notify/channel and Arc generators plus fixed programs "
                        "with spurious and non-exploring branches; every exploration is compared record by record with "
                        "the explorer twin (all paths, marks, clocks) and its decision sequences are checked for "
-                       "repetition and depth-first order; non-trivial = more than one iteration; distinct = different "
+                       "repetition and depth-first order; programs with two threads waiting in yield loops at the same time must "
+                       "return normally; non-trivial = more than one iteration; distinct = different "
                        "program text")
     impl, twin, dis = ctx.correspond(programs, cap, view="explore")
     nontrivial = 0
@@ -107,6 +124,9 @@ def run(ctx):
             err = f"reported iteration count {done[0]} differs from the {len(its)} iterations seen"
         if done and done[1].startswith(("abort", "hang")) or (done and done[0] == "?"):
             err = f"exploration did not terminate normally: {done}"
+        if err is None and p in spins and done and done[1] not in ("ok", "capped"):
+            err = (f"every thread of the program terminates (each waits in a yield loop for a flag another thread sets "
+                   f"unconditionally), but the model run ends with {done[1]} in iteration {len(its)}")
         if err:
             failing += 1
             ctx.violation("c14-oracle", {"error": err, "iterations": len(its)}, found_input=True, program=p)
